@@ -1,5 +1,6 @@
 import Bardolph.Proofs.VmSteps
 import Bardolph.Props.C02
+import Bardolph.Props.C03
 /-!
 Helpers for the C04 theorems (`Props/C04.lean`):
 
@@ -816,6 +817,149 @@ theorem run_pf_var (img : Image) (pf : List Instr) (n : String) (s : State) (pc 
   rw [show pf.length + 1 = (pf ++ [Instr.pop (.var n)]).length by simp, this]
   simp only [State.put, putVariable_with_pc]
   simp [hs, putVariable_status]
+
+
+theorem run_trans {img : Image} {a b : Nat} {s t u : State} (h1 : run img a s = t)
+    (h2 : run img b t = u) : run img (a + b) s = u := by
+  rw [run_add, h1, h2]
+
+/-- `a; b; OP o; POP <loop variable>` with `a`, `b` pushes -/
+theorem run_group_lv (img : Image) (a b : Instr) (o : Operator) (l : LoopVar) (s : State) (pc : Nat)
+    (x y r : Val) (vars : List (LoopVar × Val)) (h : Nat) (rest : List Frame)
+    (hs : s.status = .running) (hpc : s.pc = (pc : Int))
+    (hc : CodeAt img pc [a, b, .op o, .pop (.loopVar l)]) (hst : s.stack = .loop vars h :: rest)
+    (ha : pfStep s.read s.eval a = some (x :: s.eval))
+    (hb : pfStep s.read (x :: s.eval) b = some (y :: x :: s.eval)) (ho : binVal o x y = some r) :
+    run img 4 s = { s with pc := (pc : Int) + 4, stack := .loop (setLV vars l r) h :: rest } := by
+  have := run_pf_lv img [a, b, .op o] l s pc r vars h rest hs hpc hc hst
+    (pfRun3 s.read s.eval a b o x y r ha hb ho)
+  simp only [List.length_cons, List.length_nil] at this
+  rw [this]
+  apply State.ext' <;> simp
+  omega
+
+/-- `a; b; OP o; POP <register>` -/
+theorem run_group_reg (img : Image) (a b : Instr) (o : Operator) (r' : Reg) (s : State) (pc : Nat)
+    (x y r : Val) (hs : s.status = .running) (hpc : s.pc = (pc : Int))
+    (hc : CodeAt img pc [a, b, .op o, .pop (.reg r')])
+    (ha : pfStep s.read s.eval a = some (x :: s.eval))
+    (hb : pfStep s.read (x :: s.eval) b = some (y :: x :: s.eval)) (ho : binVal o x y = some r) :
+    run img 4 s = { s with pc := (pc : Int) + 4,
+                           regs := fun q => if q = r' then r else s.regs q } := by
+  have := run_pf_reg img [a, b, .op o] r' s pc r hs hpc hc
+    (pfRun3 s.read s.eval a b o x y r ha hb ho)
+  simp only [List.length_cons, List.length_nil] at this
+  rw [this]
+  apply State.ext' <;> simp
+  omega
+
+/-- `a; b; OP o; POP <variable>` -/
+theorem run_group_var (img : Image) (a b : Instr) (o : Operator) (n : String) (s : State) (pc : Nat)
+    (x y r : Val) (hs : s.status = .running) (hpc : s.pc = (pc : Int))
+    (hc : CodeAt img pc [a, b, .op o, .pop (.var n)])
+    (ha : pfStep s.read s.eval a = some (x :: s.eval))
+    (hb : pfStep s.read (x :: s.eval) b = some (y :: x :: s.eval)) (ho : binVal o x y = some r) :
+    run img 4 s = { s.putVariable n r with pc := (pc : Int) + 4 } := by
+  have := run_pf_var img [a, b, .op o] n s pc r hs hpc hc
+    (pfRun3 s.read s.eval a b o x y r ha hb ho)
+  simp only [List.length_cons, List.length_nil] at this
+  rw [this]
+  apply State.ext' <;> simp
+  omega
+
+/-! ## 7. script variables under a loop frame -/
+
+/-- the nearest frame that is not a loop frame, if there is one, is an entered routine
+activation — not a frame between `CTX` and `JSR` (loops are statements; they never run while
+a parameter list is being filled) -/
+def ScopeOk (st : List Frame) : Prop :=
+  LoopsOnly st ∨ ∃ loops locals ret rest, LoopsOnly loops ∧ st = loops ++ .call locals ret :: rest
+
+theorem loopsOnly_cons_loop {vars : List (LoopVar × Val)} {h : Nat} {l : List Frame}
+    (hl : LoopsOnly l) : LoopsOnly (.loop vars h :: l) := by
+  intro f hf
+  simp only [List.mem_cons] at hf
+  rcases hf with rfl | hf
+  · rfl
+  · exact hl f hf
+
+theorem ScopeOk.cons_loop {vars : List (LoopVar × Val)} {h : Nat} {st : List Frame}
+    (hs : ScopeOk st) : ScopeOk (.loop vars h :: st) := by
+  rcases hs with hl | ⟨loops, locals, ret, rest, hl, rfl⟩
+  · exact .inl (loopsOnly_cons_loop hl)
+  · exact .inr ⟨.loop vars h :: loops, locals, ret, rest, loopsOnly_cons_loop hl, rfl⟩
+
+theorem ScopeOk.tail {vars : List (LoopVar × Val)} {h : Nat} {st : List Frame}
+    (hs : ScopeOk (.loop vars h :: st)) : ScopeOk st := by
+  rcases hs with hl | ⟨loops, locals, ret, rest, hl, he⟩
+  · exact .inl hl.cons.2
+  · cases loops with
+    | nil => simp at he
+    | cons f loops =>
+      simp only [List.cons_append, List.cons.injEq] at he
+      exact .inr ⟨loops, locals, ret, rest, hl.cons.2, he.2⟩
+
+theorem ScopeOk.retop {vars vars' : List (LoopVar × Val)} {h h' : Nat} {st : List Frame}
+    (hs : ScopeOk (.loop vars h :: st)) : ScopeOk (.loop vars' h' :: st) := hs.tail.cons_loop
+
+theorem activation_cons_loop (vars : List (LoopVar × Val)) (h : Nat) (st : List Frame) :
+    activation (.loop vars h :: st) = activation st := rfl
+
+/-- what a name denotes does not depend on `pc`, registers, or the innermost loop frame's
+hidden variables -/
+theorem getVariable_retop (s t : State) (vars vars' : List (LoopVar × Val)) (h h' : Nat)
+    (rest : List Frame) (n : String) (hs : s.stack = .loop vars h :: rest)
+    (ht : t.stack = .loop vars' h' :: rest) (hc : t.constants = s.constants)
+    (hg : t.globals = s.globals) : t.getVariable n = s.getVariable n := by
+  simp only [State.getVariable, hs, ht, hc, hg, activation_cons_loop]
+
+/-- **assign, then read.**  Under `ScopeOk`, for a name that is not a macro: the value just
+assigned is what the name denotes; the innermost loop frame stays on top; macros, status, `pc`,
+registers and the evaluation stack are untouched; the scope stays well-formed. -/
+theorem putVariable_get (s : State) (n : String) (v : Val) (hc : s.constants.get n = none)
+    (hok : ScopeOk s.stack) :
+    (s.putVariable n v).getVariable n = v ∧ ScopeOk (s.putVariable n v).stack ∧
+    (s.putVariable n v).constants = s.constants ∧
+    (∀ vars h rest, s.stack = .loop vars h :: rest →
+      ∃ rest', (s.putVariable n v).stack = .loop vars h :: rest') := by
+  rcases hok with hl | ⟨loops, locals, ret, rest, hl, hst⟩
+  · rw [C03_toplevel_assign s n v hl]
+    refine ⟨?_, .inl hl, rfl, fun vars h rest hs => ⟨rest, hs⟩⟩
+    simp [State.getVariable, hc, activation_only_loops s.stack hl, Dict.get_put_self]
+  · have htop : ∀ (locals' : Dict) vars h rest0, s.stack = .loop vars h :: rest0 →
+        ∃ rest', loops ++ Frame.call locals' ret :: rest = .loop vars h :: rest' := by
+      intro locals' vars h rest0 hs
+      rw [hst] at hs
+      cases loops with
+      | nil => simp at hs
+      | cons f loops =>
+        simp only [List.cons_append, List.cons.injEq] at hs
+        exact ⟨loops ++ Frame.call locals' ret :: rest, by simp [hs.1]⟩
+    by_cases hn : locals.has n = true
+    · rw [C03_param_private s loops locals ret rest n v hl hst hn]
+      refine ⟨?_, .inr ⟨loops, _, ret, rest, hl, rfl⟩, rfl, fun vars h rest0 hs => htop _ vars h rest0 hs⟩
+      exact C03_param_hides_global _ loops (locals.put n v) ret rest n v hl rfl hc
+        (Dict.get_put_self locals n v)
+    · have hn : locals.has n = false := by simpa using hn
+      by_cases hg : s.globals.has n = true
+      · rw [C03_global_assign s loops locals ret rest n v hl hst hn hg]
+        refine ⟨?_, .inr ⟨loops, locals, ret, rest, hl, hst⟩, rfl, fun vars h rest0 hs => ⟨rest0, hs⟩⟩
+        have hnone : locals.get n = none := by
+          cases hget : locals.get n with
+          | none => rfl
+          | some x =>
+            have := (Dict.has_iff_get locals n).2 ⟨x, hget⟩
+            rw [hn] at this; simp at this
+        rw [C03_nonlocal_reads_global { s with globals := s.globals.put n v } loops locals ret rest n hl hst hc hnone]
+        simp [Dict.get_put_self]
+      · have hg : s.globals.has n = false := by simpa using hg
+        rw [C03_new_name_is_local s loops locals ret rest n v hl hst hn hg]
+        refine ⟨?_, .inr ⟨loops, _, ret, rest, hl, rfl⟩, rfl, fun vars h rest0 hs => htop _ vars h rest0 hs⟩
+        have hput : locals.put n v = locals ++ [(n, v)] := by
+          have : locals.any (·.1 == n) = false := hn
+          simp [Dict.put, this]
+        exact C03_param_hides_global _ loops (locals ++ [(n, v)]) ret rest n v hl rfl hc
+          (by rw [← hput]; exact Dict.get_put_self locals n v)
 
 
 end Loops
